@@ -91,4 +91,72 @@ theorem C12_gen_memr_slice1 : (MemoryReader_Slice1_translated && MemoryReader_Sl
     have h2 := C12_gen_memr_slice2 h.1.2 s s.pos n hl hp hp hn
     have hf := C12_gen_memr_fwd h.2 s n hl hp hn
     simp only [MemoryReader_Slice1, h2, hf, MemR.slice1]
-    cases MemR.slice2 s s.pos n <;> cases MemR.fwd s n <;> simp only [okOr_ok, okOr_error]
+    cases MemR.slice2 s s.pos n <;> cases MemR.fwd s n <;> simp only [okOr_ok, okOr_error, bind_none', bind_some']
+
+/-! ## SliceReader<W>: reads and seeks
+
+The model `Slice.read W s k` etc. is parametric in the wrapped stream.  Instantiated with the recording stream
+`probeW` it shows its own guard (`error` or not) and the value it hands to the wrapped stream (`arg`), which is what
+the generated definitions compute from `startingOffset`, `sliceLength`, `wrappedStream.Position()`. -/
+
+/-- the slice whose wrapped stream reports position `wp` (its length is irrelevant to reads and seeks) -/
+def probeSlice (start len wp : Nat) : Slice Probe := { w := { length := 0, position := wp }, start := start, len := len }
+
+theorem C12_gen_slice_read : SliceReader_ReadImplementation_translated = true →
+    ∀ (start len wp k : Nat), start < W64 → len < W64 → wp < W64 → k < W64 →
+      SliceReader_ReadImplementation start len wp k =
+        okOr (fun r : Bytes × Slice Probe => r.2.w.arg) (Slice.read probeW (probeSlice start len wp) k) := by
+  gen_bridge =>
+    intro start len wp k h1 h2 h3 h4
+    simp only [Slice.read]
+    split <;> simp only [Slice.position, probeW, probeSlice, okOr_ok, okOr_error] at * <;>
+    simp only [SliceReader_ReadImplementation, u64, W64] at * <;> gen_close
+
+theorem C12_gen_slice_readPartial : SliceReader_ReadPartial_translated = true →
+    ∀ (start len wp k : Nat), start < W64 → len < W64 → wp < W64 → k < W64 →
+      SliceReader_ReadPartial start len wp k = some (Slice.readPartial probeW (probeSlice start len wp) k).2.w.arg := by
+  gen_bridge =>
+    intro start len wp k h1 h2 h3 h4
+    simp only [Slice.readPartial]
+    split <;> simp only [Slice.position, probeW, probeSlice, SliceReader_ReadPartial, u64, W64] at * <;> gen_close
+
+theorem C12_gen_slice_seek : SliceReader_Seek_translated = true →
+    ∀ (start len wp p : Nat), start < W64 → len < W64 → wp < W64 → p < W64 →
+      SliceReader_Seek start len wp p =
+        okOr (fun r : Slice Probe => r.w.arg) (Slice.seek probeW (probeSlice start len wp) p) := by
+  gen_bridge =>
+    intro start len wp p h1 h2 h3 h4
+    simp only [Slice.seek]
+    split <;> simp only [Slice.position, probeW, probeSlice, okOr_ok, okOr_error] at * <;>
+    simp only [SliceReader_Seek, u64, W64] at * <;> gen_close
+
+theorem C12_gen_slice_fwd : SliceReader_SeekForward_translated = true →
+    ∀ (start len wp d : Nat), start < W64 → len < W64 → wp < W64 → d < W64 →
+      SliceReader_SeekForward start len wp d =
+        okOr (fun r : Slice Probe => r.w.arg) (Slice.fwd probeW (probeSlice start len wp) d) := by
+  gen_bridge =>
+    intro start len wp d h1 h2 h3 h4
+    simp only [Slice.fwd]
+    split <;> simp only [Slice.position, probeW, probeSlice, okOr_ok, okOr_error] at * <;>
+    simp only [SliceReader_SeekForward, u64, W64] at * <;> gen_close
+
+theorem C12_gen_slice_back : SliceReader_SeekBackward_translated = true →
+    ∀ (start len wp d : Nat), start < W64 → len < W64 → wp < W64 → d < W64 →
+      SliceReader_SeekBackward start len wp d =
+        okOr (fun r : Slice Probe => r.w.arg) (Slice.back probeW (probeSlice start len wp) d) := by
+  gen_bridge =>
+    intro start len wp d h1 h2 h3 h4
+    simp only [Slice.back]
+    split <;> simp only [Slice.position, probeW, probeSlice, okOr_ok, okOr_error] at * <;>
+    simp only [SliceReader_SeekBackward, u64, W64] at * <;> gen_close
+
+/-- `Position()` -/
+theorem C12_gen_slice_position : SliceReader_Position_translated = true →
+    ∀ (start len wp : Nat), start < W64 → len < W64 → wp < W64 →
+      SliceReader_Position start len wp = some ((Slice.position probeW (probeSlice start len wp) : Nat) : Int) := by
+  gen_bridge =>
+    intro start len wp h1 h2 h3
+    simp only [Slice.position, probeW, probeSlice, SliceReader_Position, u64, W64] at *
+    gen_close
+
+end Op2.Props.C12
